@@ -8,7 +8,7 @@
 #              both accesses are inside these
 META = {
     "pending_reason": "not claimed yet: the monitor for this property is still being built (see DESIGN.md Appendix C); the technique applies",
-    "hook_commits": ["8c2d351", "da19a0b"],
+    "hook_commits": ["8c2d351", "da19a0b", "454f561"],
     "notes": "All checks are runtime monitors over executions of the real code built from /repo's working tree (go test -overlay, tag verif). Verdicts: exit 0 held on what was observed, exit 1 VIOLATION, exit 2 broken/inconclusive run. Known findings: known_findings.json.",
     "engines": [
         {"name": "vcheck", "path": "/verif/vcheck", "serves_properties": [], "kind_free_text": "python driver: overlay build of /repo + harness, sharded runs, merge of observations, known-findings matching, evidence"},
@@ -58,6 +58,7 @@ CHECKS = {
         "runs": [
             {"pkg": "internal/handlers", "test": "TestVerif_C14"},
             {"pkg": "internal/handlers", "test": "TestVerif_C14Conc", "race": True},
+            {"pkg": "internal/spynode", "test": "TestVerif_C14Node"},
         ],
         "race_attrib": [r"state\.\(\*MemPool\)\.", r"state\.\(\*TxTracker\)\."],
     },
@@ -115,6 +116,7 @@ CHECKS = {
         "level_note": "Trusted: the scripted server (key derivation with the repository's own bitcoin package), server-side timestamps from one monotonic clock. A call that returns success is only judged against a generous window ending when the next connection's register arrives.",
         "runs": [
             {"pkg": "pkg/client", "test": "TestVerif_C18", "shards": {"quick": 8, "thorough": 16}},
+            {"pkg": "pkg/client", "test": "TestVerif_C18SendLoop"},
         ],
     },
     "C01": {
